@@ -207,12 +207,12 @@ pub fn eval(case: &Case, st: &mut Stats) -> Result<(), String> {
 }
 
 pub fn strategy(wt: u64, tier: Tier) -> impl Strategy<Value = Case> {
-    let (max_n, max_border) = tier.pick((1u32 << 20, 12u8), (1u32 << 24, 16u8));
+    let (max_n, max_border) = tier.pick((1u32 << 20, 12u8), (1u32 << 22, 14u8));
     gens::prog_mix(wt, max_n, max_border).prop_map(|prog| Case { prog })
 }
 
 pub fn subchecks(tier: Tier) -> Vec<SubCheck> {
-    let cases = tier.pick(40_000, 600_000);
+    let cases = tier.pick(40_000, 300_000);
     let wt_seed = move || -> u64 {
         std::env::var("VERIF_SEED").ok().and_then(|s| s.trim().parse::<i128>().ok()).map(|v| v as u64).unwrap_or(0) ^ 0xC01
     };
